@@ -92,6 +92,18 @@ var checks = []Check{
 			"outside: $jsonSchema, Decimal128, regex operands, date/timestamp/objectid/binary field values in the filter harnesses (covered for Compare by C12)"},
 	},
 	{
+		Property: "C01",
+		Harnesses: []Harness{
+			{Dir: ".", Func: "H_C01_call", Quick: P{"maxdocs": 1, "tags": TNull | TInt32 | TString | TArray, "fixedclock": 1}, Thorough: P{"maxdocs": 2, "tags": TNull | TInt32 | TString | TArray, "fixedclock": 1}},
+			lemClone,
+		},
+		Assumptions: append([]string{"the sequential model is a list of documents in insertion order plus the operator semantics of mongokit.Match / bsonkit.Put, which C10/C11 check against MongoDB's definitions separately; the BSON codec is stubbed as a structure-preserving copy",
+			"engine, client, collection, cursor, tomb and context code runs from its real SSA (sequential scheduler: background goroutines run only when the caller blocks)"}, commonAssumptions...),
+		Bounds: []string{"pre-state: 0..maxdocs documents {_id: i, a?: X} inserted through InsertOne; then ONE call: InsertOne (with/without _id, duplicate ids), CountDocuments (skip/limit), UpdateOne/UpdateMany ($set), DeleteOne/DeleteMany, ReplaceOne (with/without upsert), FindOneAndUpdate (Before/After), Find (sort by _id, skip, limit), Drop (+re-insert); filters {}, {_id: k}, {a: v}",
+			"after the call Find({}) must equal the model; two-call interactions beyond 'setup inserts + call' and longer histories rest on the one-step argument of DESIGN.md 3.4 (C15/C02/C08 steps)",
+			"outside: BulkWrite, InsertMany ordering, index management through IndexView (covered at transaction level by C15/C07/C02), Distinct (C13), projections (C14), options not listed"},
+	},
+	{
 		Property: "C17",
 		Harnesses: []Harness{
 			{Dir: ".", Func: "H_C17_driver", Quick: P{"fixedclock": 1}, Thorough: P{"fixedclock": 1}, Note: "driver API: returned ids, distinct values, decoded documents and arguments vs the engine's catalog"},
